@@ -209,8 +209,56 @@ def day_blocks(cal, ref, tier, seed):
     return blocks
 
 
+# every named way of obtaining a calendar and the calendar it is documented to give (Noda Time's documented ids; the Islamic ids
+# are "Hijri <Epoch>-<Pattern>", islamic_bcl is the BCL's HijriCalendar = base-16 pattern with the astronomical epoch)
+NAMED_ACCESSORS = {
+    "iso": "ISO", "gregorian": "Gregorian", "julian": "Julian", "coptic": "Coptic", "badi": "Badi", "um_al_qura": "Um Al Qura",
+    "hebrew_civil": "Hebrew Civil", "hebrew_scriptural": "Hebrew Scriptural", "islamic_bcl": "Hijri Astronomical-Base16",
+    "persian_simple": "Persian Simple", "persian_arithmetic": "Persian Arithmetic", "persian_astronomical": "Persian Algorithmic",
+}
+
+
+def _named_routes(acc: Acc):
+    """the reference comparison above goes through for_id(id); every other public route to a calendar must hand out that same
+    object: static properties, the Hebrew/Islamic factories with every argument combination"""
+    from pyoda_time.calendars import HebrewMonthNumbering, IslamicEpoch, IslamicLeapYearPattern
+    routes = [("CalendarSystem.%s" % n, (lambda n=n: getattr(CalendarSystem, n)), cid) for n, cid in NAMED_ACCESSORS.items()]
+    camel = {"BASE15": "Base15", "BASE16": "Base16", "INDIAN": "Indian", "HABASH_AL_HASIB": "HabashAlHasib", "CIVIL": "Civil", "ASTRONOMICAL": "Astronomical"}
+    for pat in IslamicLeapYearPattern:
+        for ep in IslamicEpoch:
+            routes.append(("get_islamic_calendar(%s, %s)" % (pat.name, ep.name), (lambda pat=pat, ep=ep: CalendarSystem.get_islamic_calendar(pat, ep)),
+                           "Hijri %s-%s" % (camel[ep.name], camel[pat.name])))
+    for num in HebrewMonthNumbering:
+        routes.append(("get_hebrew_calendar(%s)" % num.name, (lambda num=num: CalendarSystem.get_hebrew_calendar(num)), "Hebrew %s" % camel.get(num.name, num.name.capitalize())))
+    known = set(CalendarSystem.ids)
+    for name, fn, cid in routes:
+        acc.count(states=1, evaluations=1, transitions=1, nontrivial=1)
+        try:
+            cal = fn()
+        except Exception as e:  # noqa: BLE001
+            acc.lib_exception("C02/named-route/%s" % name, e, {"route": name})
+            continue
+        if cal.id != cid:
+            acc.violation("C02/named-route/wrong-calendar/%s" % name, "%s gives calendar %r; it is documented to give %r" % (name, cal.id, cid), {"route": name})
+        elif cid in known and cal is not CalendarSystem.for_id(cid):
+            acc.violation("C02/named-route/other-object/%s" % name, "%s gives an object other than for_id(%r)" % (name, cid), {"route": name})
+        acc.outcome("named-route")
+    for name in sorted(n for n in dir(CalendarSystem) if not n.startswith("_")):
+        # an accessor this table does not know (added later) is recorded, never judged
+        try:
+            v = getattr(CalendarSystem, name)
+        except Exception:  # noqa: BLE001
+            continue
+        if isinstance(v, CalendarSystem) and name not in NAMED_ACCESSORS:
+            acc.degrade("calendar accessor CalendarSystem.%s is not in the table of documented accessors: not checked" % name)
+    acc.sample({"named_routes": [r[0] for r in routes][:8]})
+
+
 def run(ctx):
     ids = arithmetic_ids()
+    acc = Acc()
+    _named_routes(acc)
+    ctx.merge_part("named_routes", acc)
     ctx.rule = ("every year and month of each arithmetic calendar compared with the independent published algorithm (year start, leap flag, "
                 "length, months, month starts/ends, weekday); day-level lock-step walk on blocks (quick) or the whole range (thorough); ISO vs "
                 "datetime.date over all ordinals; non-trivial = distinct (calendar, year) and (calendar, day) states compared")
